@@ -658,3 +658,69 @@ Qed.
 
 Example bracket_example : cells_bounded (fun _ : R => 2) [0; 1 / 2; 1] [2; 2] [2; 2].
 Proof. simpl. repeat split; lra. Qed.
+
+(* ---------------------------------------------------------------- endpoints outside the sphere *)
+(* the code integrates from the endpoint to the EXIT point; when the endpoint is outside the sphere the
+   chord first runs through vacuum up to the entry distance -e.d - sqrt(disc): there the radius exceeds
+   R (density 0), between entry and exit it is below R *)
+Definition entry_distance (R0 : R) (e d : vec3) : R := - vdot e d - sqrt (disc R0 e d).
+
+Lemma chord_outside_before_entry R0 e d s : 0 < R0 -> vdot d d = 1 -> 0 <= disc R0 e d ->
+  s < entry_distance R0 e d -> R0 < sqrt (vdot (along e d s) (along e d s)).
+Proof.
+  intros HR Hd HD Hs. unfold entry_distance in Hs.
+  pose proof (along_sq_disc R0 e d s Hd) as H.
+  set (q := sqrt (disc R0 e d)) in *.
+  assert (Hq : q * q = disc R0 e d) by (apply sqrt_sqrt; assumption).
+  assert (Hq0 : 0 <= q) by apply sqrt_pos.
+  assert (R0 * R0 < vdot (along e d s) (along e d s)) by nra.
+  apply Rle_lt_trans with (sqrt (R0 * R0)); [rewrite sqrt_square; lra|]. apply sqrt_lt_1_alt. nra.
+Qed.
+
+Lemma chord_inside_between R0 e d s : 0 < R0 -> vdot d d = 1 -> 0 <= disc R0 e d ->
+  entry_distance R0 e d < s < exit_distance R0 e d -> sqrt (vdot (along e d s) (along e d s)) < R0.
+Proof.
+  intros HR Hd HD Hs. unfold entry_distance, exit_distance in Hs.
+  pose proof (along_sq_disc R0 e d s Hd) as H.
+  set (q := sqrt (disc R0 e d)) in *.
+  assert (Hq : q * q = disc R0 e d) by (apply sqrt_sqrt; assumption).
+  assert (Hq0 : 0 <= q) by apply sqrt_pos.
+  assert (Hpos : 0 <= vdot (along e d s) (along e d s)).
+  { destruct (along e d s) as [[a b] c]. unfold vdot, vx, vy, vz; simpl. nra. }
+  assert (vdot (along e d s) (along e d s) < R0 * R0) by nra.
+  apply Rlt_le_trans with (sqrt (R0 * R0)); [apply sqrt_lt_1_alt; lra|rewrite sqrt_square; lra].
+Qed.
+
+(* so the vacuum part of the sampled chord contributes density 0 (PREM and core-mantle-crust) *)
+Lemma prem_vacuum_zero_lemma e d t : vdot d d = 1 -> 0 <= disc PREM_earth_radius e d ->
+  t * exit_distance PREM_earth_radius e d < entry_distance PREM_earth_radius e d ->
+  along_density PREM_density e d (exit_distance PREM_earth_radius e d) t = 0.
+Proof.
+  intros Hd HD Ht. unfold along_density. rewrite chord_radius_along.
+  assert (HR : 0 < PREM_earth_radius) by (unfold PREM_earth_radius; lra).
+  pose proof (chord_outside_before_entry _ e d _ HR Hd HD Ht) as H.
+  destruct (prem_density_is_reference_lemma (sqrt (vdot (along e d (t * exit_distance PREM_earth_radius e d)) (along e d (t * exit_distance PREM_earth_radius e d))))) as (_ & Hout & _).
+  apply Hout. rewrite <- prem_radius_eq. lra.
+Qed.
+
+Lemma cmc_vacuum_zero_lemma e d t : vdot d d = 1 -> 0 <= disc CoreMantleCrustModel_earth_radius e d ->
+  t * exit_distance CoreMantleCrustModel_earth_radius e d < entry_distance CoreMantleCrustModel_earth_radius e d ->
+  along_density CoreMantleCrustModel_density e d (exit_distance CoreMantleCrustModel_earth_radius e d) t = 0.
+Proof.
+  intros Hd HD Ht. unfold along_density. rewrite chord_radius_along.
+  assert (HR : 0 < CoreMantleCrustModel_earth_radius) by (unfold CoreMantleCrustModel_earth_radius; lra).
+  pose proof (chord_outside_before_entry _ e d _ HR Hd HD Ht) as H.
+  destruct (cmc_density_is_reference_lemma (sqrt (vdot (along e d (t * exit_distance CoreMantleCrustModel_earth_radius e d)) (along e d (t * exit_distance CoreMantleCrustModel_earth_radius e d))))) as (_ & Hout & _).
+  apply Hout. rewrite <- cmc_radius_eq. lra.
+Qed.
+
+(* an endpoint outside the sphere whose direction enters it: 0 < entry < exit *)
+Example outside_endpoint_example :
+  0 < entry_distance PREM_earth_radius (shift PREM_earth_radius (0, 0, 1000)) (0, 0, -1) /\
+  entry_distance PREM_earth_radius (shift PREM_earth_radius (0, 0, 1000)) (0, 0, -1)
+    < exit_distance PREM_earth_radius (shift PREM_earth_radius (0, 0, 1000)) (0, 0, -1).
+Proof.
+  unfold entry_distance, exit_distance, disc, shift, vdot, vx, vy, vz, PREM_earth_radius; simpl.
+  match goal with |- context [sqrt ?D] => replace D with (6371000 * 6371000) by ring end.
+  rewrite sqrt_square by lra. lra.
+Qed.
